@@ -91,6 +91,12 @@ func checkGuards(w *World, c *Check, rule, fnKey string, cls ExitClass, specs []
 			}
 		}
 		if len(pass) == 0 {
+			if !g.RejectForm {
+				if ok, _ := fa.GuardHoldsByScenario(cls, g); ok {
+					c.Ok(rule, fnKey, g.Name, where, g.Desc)
+					continue
+				}
+			}
 			c.Fail(rule, fnKey, g.Name, where, g.Desc,
 				"no branch in the function tests this condition (guard deleted, or it compares other operands); conditions present: "+fa.condSummary())
 			continue
@@ -121,6 +127,10 @@ func checkGuards(w *World, c *Check, rule, fnKey string, cls ExitClass, specs []
 			continue
 		}
 		if path := fa.PathAvoiding(all, exits); path != nil {
+			if ok, _ := fa.GuardHoldsByScenario(cls, g); ok {
+				c.Ok(rule, fnKey, g.Name, gw, g.Desc)
+				continue
+			}
 			c.Fail(rule, fnKey, g.Name, gw, g.Desc,
 				"a path reaches a success exit without passing the accepting edge of this guard: "+fa.DescribePath(path))
 		} else {
@@ -351,7 +361,7 @@ func ruleEqualityHelpers(w *World, c *Check, rule string) {
 	})
 	checkGuards(w, c, rule, "types.HostAddressesEqual", trueExitClass(0), []GuardSpec{
 		{Name: "same-length", Desc: "lists of different length are not equal", Main: []GuardPat{EqPass(`len\(h\)`, `len\(a\)`)}},
-		{Name: "every-element-found", Desc: "an element of one list missing from the other ⇒ false", Main: []GuardPat{TruePass(`φ\(false\|true\)`)}, RejectForm: true},
+		{Name: "every-element-found", Desc: "an element of one list missing from the other ⇒ false", Main: []GuardPat{TruePass(`φ\(false\|true\)`), TruePass(`types\.HostAddressesContains\(h, a\[\$i0\]\)`), TruePass(`types\.HostAddressesContains\(a, h\[\$i0\]\)`)}, RejectForm: true},
 	})
 }
 
